@@ -302,7 +302,7 @@ DecideEndSession(a) ==
   ELSE IF client = "" THEN redirect("default", "", "")
   ELSE IF client \notin Clients THEN TokErr("server_error")
   ELSE IF a.uri = "" THEN redirect("default", IF hintOK THEN idts[h.id].sub ELSE "", client)
-  ELSE IF a.uri \in Reg[client].postLogout THEN redirect(a.uri, IF hintOK THEN idts[h.id].sub ELSE "", client)
+  ELSE IF PostLogoutOK(client, a.uri) THEN redirect(a.uri, IF hintOK THEN idts[h.id].sub ELSE "", client)
   ELSE TokErr("invalid_request")
 
 -----------------------------------------------------------------------------
@@ -447,7 +447,7 @@ PollArgs == {[caller |-> cc[1], cred |-> cc[2], dc |-> d, slow |-> s] : cc \in C
 
 EndSessionArgs ==
   LET hints == {[kind |-> "none", id |-> "none"]} \cup [kind : {"valid", "expired", "multiaud", "futureiat", "noiat", "wrongkey", "wrongiss", "algnone"}, id : DOMAIN idts] IN
-  [hint : hints, client : {"", "cw", "cx", "cz"}, uri : {"", "plcw", "plcx", "evil"}, state : {"", "ls1"}, host : IF cfg.dyn THEN {"A", "B"} ELSE {"A"}]
+  [hint : hints, client : {"", "cw", "cx", "cz"}, uri : {"", "plcw", "plcx", "evil", "plcwG", "ucwG"}, state : {"", "ls1"}, host : IF cfg.dyn THEN {"A", "B"} ELSE {"A"}]
 
 RefArgs ==
   LET none == [kind |-> "none", form |-> "none", id |-> "none", declared |-> "none"]
